@@ -1,4 +1,5 @@
 import LivesimVerif.Lemmas.ChunkParser
+import LivesimVerif.Lemmas.ChunkSpec
 /-!
 # C18 — Chunk parser output does not depend on how the bytes arrive
 
@@ -27,6 +28,22 @@ theorem c18_terminates (input : List Byte) (sched : List Nat) (e : Bool) (fr fc 
     ∀ s, run input sched e fr fc ≠ .outOfFuel s :=
   run_terminates input sched e fr fc
 
+/-- **The parser is a function of the byte string alone.**  Without injected errors, for every input, every read
+schedule and both ways of signalling end of input, `Parse` makes exactly the callbacks of the schedule-free
+specification `spec` (`Lemmas/ChunkSpec.lean`): one when a media-data box is complete, carrying everything since the
+previous callback; one at the end for what is left (trailing bytes, a truncated box); the init flag from the first movie
+box on; and it stops with the "bad box size" error exactly where `spec` does. -/
+theorem c18_spec (input : List Byte) (sched : List Nat) (e : Bool) :
+    (run input sched e none none).toS = spec input := by
+  unfold run spec
+  exact parse_eq_spec (fuelFor input) (init input sched e none none) ⟨rfl, rfl, rfl, rfl⟩
+
+/-- **Schedule independence**: two ways of splitting the same stream into reads give the same callbacks and the same
+outcome. -/
+theorem c18_sched_indep (input : List Byte) (s1 s2 : List Nat) (e1 e2 : Bool) :
+    (run input s1 e1 none none).toS = (run input s2 e2 none none).toS := by
+  rw [c18_spec, c18_spec]
+
 /-- non-vacuity: a stream of init + two chunks + trailing bytes, fed 3 bytes at a time, ends with `done`
 and three callbacks (after each mdat, and the trailing bytes). -/
 def sample : List Byte :=
@@ -40,5 +57,13 @@ example : (run sample [1,2,3,4,5] true none none).kind = 0 := by decide
 
 /-- a size-0 box is refused (before the `fix:` commit the implementation looped forever here) -/
 example : (run ([0,0,0,0] ++ [102,114,101,101] ++ [1,2,3]) [] false none none).kind = 3 := by decide
+
+/-- what `spec` says on a well-formed stream: init segment + two chunks + two trailing bytes -/
+example : spec sample = .done [⟨0, true, sample.take 33⟩, ⟨33, true, (sample.drop 33).take 19⟩, ⟨52, true, sample.drop 52⟩] := by
+  decide
+
+/-- … and on a truncated media-data box: the incomplete box is delivered at the end, not earlier -/
+example : spec (box moovTag [1] ++ (box mdatTag [2, 3, 4, 5]).take 10) =
+    .done [⟨0, true, box moovTag [1] ++ (box mdatTag [2, 3, 4, 5]).take 10⟩] := by decide
 
 end CP
